@@ -50,6 +50,10 @@ HAND = [
 IONS = ['C[n+]1ccn(CC)c1.[Cl-]', 'C[n+]1ccn(C)c1', 'CCn1cc[n+](C)c1', 'CCCC[n+]1ccn(C)c1.F[B-](F)(F)F', 'C[n+]1cccn1CC', 'CN(C)C=[N+](C)CC',
         'C[N+](C)=CN(C)CC', 'c1cc[nH+]cc1', 'C[n+]1ccccc1', '[cH-]1cccc1.[cH-]1cccc1.[Fe+2]', 'CC(=[NH2+])N', 'NC(N)=[NH2+]', 'C[n+]1ccn(CC)c1C']
 
+# aromatic N - metal chelates written with covalent bonds: kekule() rewrites the N-M bonds to coordinate bonds (order 8), which ring
+# perception ignores, so the chelate ring disappears and the kept ring caches must be dropped
+CHELATES = ['[Cu]1n2ccccc2-c2ccccn12', '[Pd]1n2ccccc2CCc2ccccn12', '[Ni]1n2ccccc2-c2ccccn12', '[Zn]1n2ccccc2C=Cc2ccccn12']
+
 REACTIONS = ['CC(=O)O.OCC>>CC(=O)OCC.O', '[CH3:1][Br:2].[OH-:3]>>[CH3:1][OH:3].[Br-:2]', 'C=C.C=CC=C>>C1CCC=CC1', 'CCO>[Na+].[OH-]>CC=O',
              'c1ccccc1Br.OB(O)c1ccccc1>[Pd]>c1ccccc1-c1ccccc1', '[Na+].[Cl-].O>>O.[Na+].[Cl-]',
              # spectator molecules: remove_reagents moves them to the reagents
@@ -840,6 +844,9 @@ def build_spec(ck):
     for s in IONS:
         mols.append(('hand:' + s, s))
         mols.append(('ion:' + s, s))
+    for s in CHELATES:
+        mols.append(('hand:' + s, s))
+        mols.append(('ion:' + s, s))
     pool = corpus.sample(corpus.lipo(), 24 if quick else 500, ck.seed, 'c19')
     for s in pool:
         mols.append(('corpus:' + s, s))
@@ -1135,7 +1142,7 @@ def memo_cases(ck, rng):
         return int.from_bytes(hashlib.blake2b(ser(v).encode(), digest_size=4).digest(), 'big')   # an int code of the value
     cases, meta = [], []
     for smi in ['c1ccccc1C', 'C1CC1C1CCCCC1', 'CC(=O)O.[Na+]', 'C[C@H](N)C(=O)O', 'C12C3C4C1C5C2C3C45', 'C[n+]1ccn(CC)c1.[Cl-]', 'CCn1cc[n+](C)c1',
-                'CC(=O)[O-].C[NH3+]']:
+                'CC(=O)[O-].C[NH3+]'] + CHELATES[:2]:
         for h in range(6 if ck.tier == 'quick' else 30):
             m = smiles(smi)
             # states: 0 = as parsed, then one more per edit; the table `derive` lists, per state, the uncached value of every key
@@ -1281,6 +1288,10 @@ def memo_keep_cases(ck, rng):
         for k in ('keep_sssr', 'keep_components'):
             if f'{k}=True' not in kw:
                 f[k] = False          # not kept (or decided at run time) at some call site: the model keeps nothing of that family
+    # kekule() calls __fix_rings, whose flush flags are decided at run time (a bond rewritten to order 8 drops the ring caches): the model
+    # keeps nothing for it, i.e. every read after kekule() must equal the fresh value
+    if 'kekule' in flags:
+        flags['kekule']['keep_sssr'] = flags['kekule']['keep_components'] = False
     methods = [mth for mth in ('kekule', 'thiele', 'standardize_charges', 'implicify_hydrogens', 'explicify_hydrogens', 'clean_isotopes',
                                'remove_coordinate_bonds', 'fix_resonance', 'neutralize', 'clean_stereo') if mth in flags or mth in ('neutralize', 'clean_stereo')]
     ck.extra['partial_flush_methods'] = {mth: {k: v for k, v in flags.get(mth, {}).items()} for mth in methods}
@@ -1294,7 +1305,7 @@ def memo_keep_cases(ck, rng):
         return int.from_bytes(hashlib.blake2b(ser(v).encode(), digest_size=4).digest(), 'big')
     cases, meta = [], []
     for smi in ['c1ccccc1C', 'C1=CC=CC=C1O', 'CC(=O)[O-].C[NH3+]', 'C[n+]1ccn(CC)c1.[Cl-]', 'C[N+](=O)[O-]', 'CN(=O)=O', '[13CH3]c1ccncc1', 'C[C@H](N)C(=O)O',
-                'O=c1cccc[nH]1', 'C[Fe](C)(C)C', '[H]C([H])([H])O', 'C12C3C4C1C5C2C3C45']:
+                'O=c1cccc[nH]1', 'C[Fe](C)(C)C', '[H]C([H])([H])O', 'C12C3C4C1C5C2C3C45'] + CHELATES[:3]:
         for h in range(2 if ck.tier == 'quick' else 10):
             m = smiles(smi)
             states = [[value(m.copy(), k) for k in props]]
